@@ -22,6 +22,7 @@ CONSTANTS
     NC,          \* commits 1..NC; commit i has its parents among 1..i-1 (canonical DAGs)
     NTP,         \* the first NTP trees of Pool may be root trees of commits
     NT,          \* at most NT annotated tags (0..2)
+    MaxHeads,    \* the sender has at most MaxHeads branches
     MaxWants,    \* |wants| <= MaxWants
     Modes,       \* subset of {"single", "multi", "detailed"}: multi_ack off / on / detailed
     IncTag,      \* subset of BOOLEAN: client asks for include-tag
@@ -85,7 +86,8 @@ SStore   == cs.sstore
 RStore0  == cs.r0
 
 Init ==
-    /\ \E u \in Universes, sh \in (SUBSET (1..NC)) \ {{}}, full \in SFull, rh \in SUBSET (1..NC),
+    /\ \E u \in Universes, sh \in {x \in SUBSET (1..NC) : x # {} /\ Cardinality(x) <= MaxHeads},
+          full \in SFull, rh \in SUBSET (1..NC),
           m \in Modes, it \in IncTag, th \in Thin :
          \E rt \in SUBSET (1..Len(u.tg)), w \in WantSets(u, sh, full) :
             cs = [par |-> u.par, tr |-> u.tr, tg |-> u.tg, sh |-> sh, full |-> full, rh |-> rh, rt |-> rt, wants |-> w,
